@@ -171,6 +171,25 @@ def check_core(run, prop):
             if viol[key] <= 10:
                 run.violation(dict(rep, key=full), **kw)
 
+    def impl_good(rs):
+        again = rs["again"]
+        return again.get("same") is True and again.get("rest") == 0 and again.get("text2") == rs["text"]
+
+    # prefix-operator pairs that fail on their own (`P1 P2 x1`): the keys of the pair findings
+    bad_pairs = {d: set() for d in C04.DIALECTS}
+    for c, r in zip(cases, res):
+        rs = r["result"]
+        if c["stream"] == "prefix-pair" and c["sql"].endswith(" x1") and len(c["sql"].split()) == 3 and "ok" in rs and not impl_good(rs):
+            ps = set()
+            patterns(rs["ok"], ps)
+            bad_pairs[c["dialect"]] |= {p for p in ps if p.startswith("prefix-pair:")}
+    note["failing_prefix_pairs"] = {d: sorted(v) for d, v in bad_pairs.items() if v}
+
+    def keys_of(d, tree):
+        ps = set()
+        patterns(tree, ps)
+        return {p for p in ps if not p.startswith("prefix-pair:") or p in bad_pairs[d]}
+
     for i, (c, r) in enumerate(zip(cases, res)):
         rs = r["result"]
         if "ok" not in rs or r["tokens"] is None:
@@ -178,21 +197,16 @@ def check_core(run, prop):
         stats["trees"] += 1
         again = rs["again"]
         d = c["dialect"]
-        pats = set()
-        patterns(rs["ok"], pats)
+        pats = keys_of(d, rs["ok"])
         base = {"dialect": d, "input": c["sql"], "stream": c["stream"], "printed": rs["text"], "reparse": {k: again.get(k) for k in ("same", "err", "tokerr", "panic", "text2", "rest")}}
         if prop == "C01":
-            good = again.get("same") is True and again.get("rest") == 0 and again.get("text2") == rs["text"]
-            if not good:
+            if not impl_good(rs):
                 stats["impl_roundtrip_fail"] += 1
-                if pats:
-                    for p in sorted(pats):
-                        report(p, {"what": "the printed expression does not parse back to the same tree", **base})
-                else:
-                    report("unclassified", {"what": "the printed expression does not parse back to the same tree", **base})
+                for p in (sorted(pats) or ["unclassified"]):
+                    report(p, {"what": "the printed expression does not parse back to the same tree", **base})
         else:
             used = r["tokens"][:len(r["tokens"]) - rs["rest"]]
-            if "ptokens" in again and content_of(used) != content_of(again["ptokens"]):
+            if "ptokens" in again and not pats and content_of(used) != content_of(again["ptokens"]):
                 stats["content_fail"] += 1
                 wordesc = any(t[0] == "kw" and t[1] == "ESCAPE" and j + 1 < len(used) and used[j + 1][0] == "atom" for j, t in enumerate(used))
                 report("like-escape-word" if wordesc else "unclassified",
@@ -219,8 +233,7 @@ def check_core(run, prop):
     for i, cd in zip(idx, codes):
         c, r = cases[i], res[i]
         rs = r["result"]
-        pats = set()
-        patterns(rs["ok"], pats)
+        pats = keys_of(c["dialect"], rs["ok"])
         for b in relevant:
             if cd & b:
                 cnt[bits[b]] += 1
